@@ -549,6 +549,10 @@ func (st *State) runFrom(b *ssa.BasicBlock, idx int) {
 			if st.doCall(in, b, i) { // inlined: continuation handled by frame
 				return
 			}
+		case *ssa.RunDefers:
+			if st.runDefers(b, i) { // an inlined deferred closure took over; it resumes at this instruction
+				return
+			}
 		default:
 			st.step(in)
 		}
@@ -590,6 +594,16 @@ func (st *State) doReturn(in *ssa.Return) {
 		res = append(res, st.value(r))
 	}
 	fr := st.fr
+	if fr.parent != nil && fr.retKind == "defer" {
+		// return from an inlined deferred closure: resume the RunDefers instruction (or the unwinding) of the parent
+		st.fr = fr.parent
+		if st.unwinding {
+			st.unwind()
+			return
+		}
+		st.runFrom(fr.retBlk, fr.retIdx)
+		return
+	}
 	if fr.parent != nil {
 		// return from inlined callee
 		st.fr = fr.parent
@@ -858,9 +872,7 @@ func (st *State) step(in ssa.Instruction) {
 		sz := st.value(x.Size).(TV).T
 		st.oblige("bounds", fmt.Sprintf("makechan#%d", vc.ordinals[in]), tLe(tInt(0), sz), "make(chan): size >= 0")
 		r := st.allocRef("chan")
-		st.chanSet(r, "open", tTrue)
-		st.chanSet(r, "len", tInt(0))
-		st.chanSet(r, "cap", sz)
+		st.chanInit(r, sz)
 		st.bind(x, TV{r, x.Type()})
 	case *ssa.MakeClosure:
 		fv := FuncV{Fn: x.Fn.(*ssa.Function), Typ: x.Type()}
@@ -881,17 +893,11 @@ func (st *State) step(in ssa.Instruction) {
 			d.args = append(d.args, st.value(a))
 		}
 		st.fr.defers = append(st.fr.defers, d)
-	case *ssa.RunDefers:
-		for len(st.fr.defers) > 0 {
-			d := st.fr.defers[len(st.fr.defers)-1]
-			st.fr.defers = st.fr.defers[:len(st.fr.defers)-1]
-			st.callCommon(d.call, d.fnv, d.args, d.instr, true)
-		}
 	case *ssa.Go:
 		st.doGo(x)
 	case *ssa.Send:
 		ch := st.value(x.Chan).(TV).T
-		st.chanSend(ch, fmt.Sprintf("send#%d", vc.ordinals[in]), true)
+		st.chanSend(ch, st.value(x.X), x.Chan.Type().Underlying().(*types.Chan).Elem(), fmt.Sprintf("send#%d", vc.ordinals[in]), true)
 	case *ssa.Select:
 		st.selectOp(x)
 	default:
@@ -1272,98 +1278,17 @@ func (st *State) typeAssert(x *ssa.TypeAssert) {
 	st.bind(x, val)
 }
 
-// ---------- channels (ghost: open, len, cap) ----------
-
-func (st *State) chanKey(f string) string {
-	k := "CH:" + f
-	if f == "open" {
-		st.vc.setKeySort(k, arrSort(SInt, SBool))
-	} else {
-		st.vc.setKeySort(k, arrSort(SInt, SInt))
-	}
-	return k
-}
-func (st *State) chanGet(ch Term, f string) Term { return tSelect(st.get(st.chanKey(f)), ch) }
-func (st *State) chanSet(ch Term, f string, v Term) {
-	k := st.chanKey(f)
-	st.set(k, tStore(st.get(k), ch, v))
-}
-
-func (st *State) chanSend(ch Term, label string, blocking bool) {
-	// send on nil channel blocks forever (path ends); send on closed channel panics
-	st.oblige("chan", label+":not-closed", tOr(tEq(ch, tInt(0)), st.chanGet(ch, "open")), "send on a channel that is not closed")
-	if blocking {
-		st.oblige("chan", label+":not-nil", tNot(tEq(ch, tInt(0))), "blocking send on a non-nil channel")
-		// a blocking send completes when there is room; after it len is unknown-but-bounded (a receiver may have taken it)
-		ln := st.declare("chlen", SInt)
-		st.assume(tAnd(tLe(tInt(0), ln), tLe(ln, st.chanGet(ch, "cap"))))
-		st.chanSet(ch, "len", ln)
-		st.ghostCount("sends", ch)
-	}
-}
-
-func (st *State) ghostCount(name string, idx Term) {
-	k := "G:$" + name
-	st.vc.setKeySort(k, arrSort(SInt, SInt))
-	a := st.get(k)
-	st.set(k, tStore(a, idx, tAdd(tSelect(a, idx), tInt(1))))
-}
-
-func (st *State) chanRecv(x *ssa.UnOp) {
-	ch := st.value(x.X).(TV).T
-	el := x.X.Type().Underlying().(*types.Chan).Elem()
-	v := st.freshVal("recv", el)
-	okv := st.declare("recvok", SBool)
-	// ok=false only if the channel is closed (and drained)
-	st.assume(tImp(tNot(okv), tNot(st.chanGet(ch, "open"))))
-	st.assume(tNot(tEq(ch, tInt(0)))) // receive from nil blocks forever: path ends
-	if x.CommaOk {
-		st.bind(x, TupleV{[]Val{v, TV{okv, types.Typ[types.Bool]}}})
-	} else {
-		st.bind(x, v)
-	}
-	st.fr.names["$recvok"] = TV{okv, types.Typ[types.Bool]}
-}
-
-func (st *State) selectOp(x *ssa.Select) {
-	vc := st.vc
-	if x.Blocking || len(x.States) != 1 || x.States[0].Dir != types.SendOnly {
-		fail("unsupported select form")
-	}
-	ch := st.value(x.States[0].Chan).(TV).T
-	lbl := fmt.Sprintf("select#%d", vc.ordinals[x])
-	st.chanSend(ch, lbl, false)
-	// non-blocking send: succeeds iff channel non-nil and has room (or a receiver is waiting: abstracted as "may succeed when non-nil")
-	idx := st.declare("selidx", SInt)
-	sent := tEq(idx, tInt(0))
-	st.assume(tOr(sent, tEq(idx, app("-", SInt, tInt(1)))))
-	st.assume(tImp(tEq(ch, tInt(0)), tNot(sent)))
-	// if there is room in the buffer the send is taken
-	st.assume(tImp(tAnd(tNot(tEq(ch, tInt(0))), tLt(st.chanGet(ch, "len"), st.chanGet(ch, "cap"))), sent))
-	ln := st.chanGet(ch, "len")
-	nl := st.declare("chlen", SInt)
-	st.assume(tAnd(tLe(tInt(0), nl), tLe(nl, st.chanGet(ch, "cap"))))
-	st.assume(tImp(tNot(sent), tEq(nl, ln)))
-	st.chanSet(ch, "len", nl)
-	// ghost: signalled flag (the channel holds a pending value or a receiver took it)
-	k := "G:$signalled"
-	vc.setKeySort(k, arrSort(SInt, SBool))
-	a := st.get(k)
-	st.set(k, tStore(a, ch, tOr(tSelect(a, ch), tNot(tEq(ch, tInt(0))))))
-	res := []Val{TV{idx, types.Typ[types.Int]}, TV{tFalse, types.Typ[types.Bool]}}
-	st.bind(x, TupleV{res})
-}
-
 // ---------- go statements ----------
 
 func (st *State) doGo(x *ssa.Go) {
 	vc := st.vc
 	name := calleeName(&x.Call)
-	// evaluate args (for ghost expressions)
-	k := "G:$spawned." + name
-	vc.setKeySort(k, SInt)
+	// ghost: $spawned["<callee>"]++ ; the spawned function is verified separately against its own contract
+	k := "G:$spawned"
+	vc.setKeySort(k, arrSort(SStr, SInt))
 	cur := st.get(k)
-	st.set(k, tAdd(cur, tInt(1)))
+	id := vc.strLit(name)
+	st.set(k, tStore(cur, id, tAdd(tSelect(cur, id), tInt(1))))
 	vc.runGhost(st, "at go", name, vc.ordinals[x])
 }
 
@@ -1419,4 +1344,89 @@ func reroot(p PtrV) PtrV {
 		return PtrV{Kind: "obj", Root: rootName(p.Elem), Base: p.Base, Path: "", Elem: p.Elem, Typ: p.Typ}
 	}
 	return p
+}
+
+// runDefers executes the pending deferred calls of the current frame (LIFO). Deferred closures without a contract are executed from
+// their bodies; returns true if control was transferred to such a body (it resumes at the same RunDefers instruction).
+func (st *State) runDefers(b *ssa.BasicBlock, idx int) bool {
+	for len(st.fr.defers) > 0 {
+		d := st.fr.defers[len(st.fr.defers)-1]
+		st.fr.defers = st.fr.defers[:len(st.fr.defers)-1]
+		if st.inlineDeferred(d, b, idx) {
+			return true
+		}
+		st.callCommon(d.call, d.fnv, d.args, d.instr, true)
+	}
+	return false
+}
+
+// inlineDeferred: a deferred closure of this module without a contract is executed inline.
+func (st *State) inlineDeferred(d deferred, b *ssa.BasicBlock, idx int) bool {
+	vc := st.vc
+	fv, ok := d.fnv.(FuncV)
+	if !ok || fv.Fn.Blocks == nil {
+		return false
+	}
+	key := funcKey(fv.Fn)
+	if fc := vc.cs.Funcs[key]; fc != nil && !fc.Inline && !vc.forceInline(key) {
+		return false
+	}
+	if fv.Fn.Parent() == nil && !vc.forceInline(key) {
+		return false // named functions need a contract
+	}
+	if hasLoop(fv.Fn) {
+		fail("deferred closure %s has a loop", key)
+	}
+	vc.inlined[key] = true
+	vc.computeLoops(fv.Fn)
+	vc.computeOrdinals(fv.Fn)
+	nf := &Frame{fn: fv.Fn, vals: map[ssa.Value]Val{}, locals: map[*localCell]Val{}, names: map[string]Val{}, parent: st.fr,
+		retBlk: b, retIdx: idx, retKind: "defer", depth: st.fr.depth + 1, curLoopDec: map[int]Term{}}
+	for i, p := range fv.Fn.Params {
+		nf.vals[p] = d.args[i]
+		nf.names[p.Name()] = d.args[i]
+	}
+	for i, fvv := range fv.Fn.FreeVars {
+		nf.vals[fvv] = fv.Bind[i]
+		nf.names[fvv.Name()] = fv.Bind[i]
+	}
+	st.fr = nf
+	st.enter(fv.Fn.Blocks[0], nil)
+	return true
+}
+
+// unwind: a panic is propagating. Run the deferred calls of the frames from the innermost outwards; if one of them recovers,
+// execution resumes at the Recover block of that frame; otherwise the panic leaves the function under contract (the path ends).
+func (st *State) unwind() {
+	st.unwinding = true
+	for {
+		fr := st.fr
+		if !st.panicking {
+			// recovered by a deferred call of this frame
+			st.unwinding = false
+			if fr.fn.Recover == nil {
+				fail("recovered panic in a function without a recover block")
+			}
+			st.enter(fr.fn.Recover, nil)
+			return
+		}
+		if len(fr.defers) > 0 {
+			d := fr.defers[len(fr.defers)-1]
+			fr.defers = fr.defers[:len(fr.defers)-1]
+			if st.inlineDeferred(d, nil, 0) {
+				return
+			}
+			st.callCommon(d.call, d.fnv, d.args, d.instr, true)
+			continue
+		}
+		if fr.parent == nil {
+			// the panic escapes the function under contract
+			st.vc.panicEscapes++
+			if st.vc.fc != nil && len(st.vc.fc.clauses("contains_panics")) > 0 {
+				st.oblige("unreach", "panic-escapes", tFalse, "a panic of user code must not escape this function")
+			}
+			return
+		}
+		st.fr = fr.parent
+	}
 }
